@@ -45,7 +45,7 @@ def parseKind : String → Option Kind
 
 def steerOk (k : Kind) (st : String) : Bool :=
   match k with
-  | .bp | .bbp => st == "none" || st == "sc" || st == "sn"
+  | .bp | .bbp => st == "none" || st == "sc" || st == "sn" || st == "sl"
   | .wq => st == "none"
   | .mb => st == "none" || st == "wc" || st == "wn" || st == "dd" || st == "dn"
 
